@@ -114,6 +114,8 @@ class Ctx:
         self.mul_apps = {}
         self.kterms = []  # results of (x * CONST) mod 2^64 : Montgomery quotient digits, in order
         self.kconst = None
+        self.defs = []      # (term, [q, r], axiom) for every split
+        self.var_axiom = {}  # var id -> its range axiom
 
     def key(self, t):
         return t.get_id() if isinstance(t, z3.ExprRef) else ('c', t)
@@ -121,7 +123,9 @@ class Ctx:
     def var(self, name, lo, hi):
         v = z3.Int(name)
         self.rng[v.get_id()] = (lo, hi)
-        self.axioms.append(z3.And(v >= lo, v <= hi))
+        ax = z3.And(v >= lo, v <= hi)
+        self.axioms.append(ax)
+        self.var_axiom[v.get_id()] = ax
         return v
 
     def fresh(self, pfx, lo, hi):
@@ -220,12 +224,100 @@ class Ctx:
         if k not in self.splits:
             q = self.fresh('q', lo // n, hi // n)
             r = self.fresh('r', 0, n - 1)
-            self.axioms.append(z3.And(t == q * n + r, r >= 0, r < n, q >= lo // n, q <= hi // n))
+            ax = z3.And(t == q * n + r, r >= 0, r < n, q >= lo // n, q <= hi // n)
+            self.axioms.append(ax)
+            self.defs.append((t, [q, r], ax))
             tzt = self.tzs(t)
             if tzt > 0:
                 self.tz[r.get_id()] = min(tzt, n.bit_length() - 1)
             self.splits[k] = (q, r)
         return self.splits[k]
+
+    def relevant(self, exprs):
+        """axioms needed to reason about `exprs`: range axioms of their variables and, transitively, the defining
+        equations of every split whose dividend is built from already relevant variables"""
+        def vars_of(e, acc):
+            seen, st = set(), [e]
+            while st:
+                x = st.pop()
+                if x.get_id() in seen:
+                    continue
+                seen.add(x.get_id())
+                if z3.is_const(x) and x.decl().kind() == z3.Z3_OP_UNINTERPRETED:
+                    acc.add(x.get_id())
+                else:
+                    st.extend(x.children())
+            return acc
+        V = set()
+        for e in exprs:
+            if isinstance(e, z3.ExprRef):
+                vars_of(e, V)
+        out = []
+        used = set()
+        dv = getattr(self, '_defvars', {})
+        changed = True
+        while changed:
+            changed = False
+            for i, (t, qr, ax) in enumerate(self.defs):
+                if i in used:
+                    continue
+                if i not in dv:
+                    dv[i] = vars_of(t, set())
+                if dv[i] <= V:
+                    used.add(i)
+                    out.append(ax)
+                    for v in qr:
+                        V.add(v.get_id())
+                    changed = True
+        self._defvars = dv
+        for vid in V:
+            if vid in self.var_axiom:
+                out.append(self.var_axiom[vid])
+        return out
+
+    def relevant_back(self, exprs):
+        """goal-directed variant: only the defining equations of the split variables that occur in `exprs`
+        (transitively through their dividends), plus range axioms"""
+        def vars_of(e, acc):
+            seen, st = set(), [e]
+            while st:
+                x = st.pop()
+                if x.get_id() in seen:
+                    continue
+                seen.add(x.get_id())
+                if z3.is_const(x) and x.decl().kind() == z3.Z3_OP_UNINTERPRETED:
+                    acc.add(x.get_id())
+                else:
+                    st.extend(x.children())
+            return acc
+        if not hasattr(self, '_defby') or len(self._defby_n) != len(self.defs):
+            self._defby = {}
+            for i, (t, qr, ax) in enumerate(self.defs):
+                for v in qr:
+                    self._defby[v.get_id()] = i
+            self._defby_n = list(range(len(self.defs)))
+        V = set()
+        for e in exprs:
+            if isinstance(e, z3.ExprRef):
+                vars_of(e, V)
+        out, used = [], set()
+        todo = list(V)
+        while todo:
+            v = todo.pop()
+            i = self._defby.get(v)
+            if i is not None and i not in used:
+                used.add(i)
+                t, qr, ax = self.defs[i]
+                out.append(ax)
+                nv = vars_of(t, set()) | set(x.get_id() for x in qr)
+                for w in nv:
+                    if w not in V:
+                        V.add(w)
+                        todo.append(w)
+        for vid in V:
+            if vid in self.var_axiom:
+                out.append(self.var_axiom[vid])
+        return out
 
     def mod(self, t, n):
         return self.split(t, n)[1]
@@ -447,7 +539,7 @@ class Exec:
         return r != z3.unsat
 
     # ---- running
-    def run(self, fname, args, st, start_block=None, env=None, stop_blocks=()):
+    def run(self, fname, args, st, start_block=None, env=None, stop_blocks=(), skip_phis=False):
         """returns list of (state, ret_or_('stop', block, env))"""
         f = self.m.func(fname)
         self.funcs_seen.add(fname)
@@ -460,6 +552,7 @@ class Exec:
         out = []
         work = [(st, start_block or f.order[0], None, env0, {})]
         npaths = 0
+        self._skip_phis = start_block if skip_phis else None
         while work:
             st, blk, prev, env, visits = work.pop()
             while True:
@@ -471,6 +564,7 @@ class Exec:
                 if visits[blk] > self.loop_bound:
                     raise Unsupported('loop bound %d exceeded at block %s of %s' % (self.loop_bound, blk, fname))
                 res = self.block(f, blk, prev, env, st)
+                self._skip_phis = None
                 kind = res[0]
                 if kind == 'ret':
                     out.append((st, res[1]))
@@ -483,7 +577,7 @@ class Exec:
                     # pruning is only needed to bound loops; straight-line forks are kept unpruned (an
                     # infeasible path has an unsatisfiable path condition: its goals are discharged trivially)
                     inloop = visits.get(bt, 0) > 0 or visits.get(bf, 0) > 0 or visits.get(blk, 0) > 1
-                    if self.prune or inloop:
+                    if (self.prune or inloop) and not getattr(self, 'never_prune', False):
                         ft = self.feasible(st, cond)
                         ff = self.feasible(st, bnot(cond))
                     else:
@@ -519,6 +613,8 @@ class Exec:
                 rhs = re.sub(r'^(tail |notail |musttail )', '', rhs)
                 op = rhs.split()[0]
                 self.instr_seen.add(op)
+                if op == 'phi' and getattr(self, '_skip_phis', None) == blk and prev is None:
+                    continue
                 env[dst] = self.rhs(f, blk, prev, env, st, op, rhs)
                 continue
             ins2 = re.sub(r'^(tail |notail )', '', ins)
@@ -830,6 +926,12 @@ class Exec:
                 cur += ch
         if cur.strip():
             raw.append(cur.strip())
+        if callee.startswith('llvm.lifetime.end'):
+            # the object is dead from here on: forget its contents
+            mp = re.search(r'ptr (?:nonnull )?(%[\w.$-]+|%"[^"]+")', mm.group(3))
+            if mp and mp.group(1) in env and isinstance(env[mp.group(1)], Ptr) and env[mp.group(1)].obj in st.mem:
+                st.mem[env[mp.group(1)].obj] = {}
+            return None
         if callee.startswith('llvm.lifetime') or callee.startswith('llvm.experimental.noalias') or callee == 'llvm.assume' or callee.startswith('llvm.dbg'):
             return None
         args = []
